@@ -11,6 +11,11 @@ LENS = [0, 0, 1, 2, 3, 4, 5, 6, 7, 255, 256, 257, 700, 1023, 1024, 1025, 2500]
 
 def rand_body(rng, n):
     k = rng.random()
+    if k < 0.08:
+        # a body that is itself a complete gzip stream (a .gz file / gzip-encoded HTTP answer carried as payload), or only looks like one
+        import gzip as _gz
+        z = _gz.compress(bytes(rng.randrange(256) for _ in range(max(n // 2, 1))), mtime=0)
+        return z if rng.random() < 0.7 else z[:max(len(z) - 3, 4)]
     if k < 0.3:
         return bytes([rng.randrange(256)]) * n
     if k < 0.5:
@@ -162,6 +167,11 @@ def big_cases(ctx, thorough):
                   {"ty": 0x20, "compress": False, "body": "0102"}]
             cuts = rng.choice([[], [1, 1, 1, 1, 1, 4096, 3], [rng.choice([1, 5, 1000, 4096, 65536]) for _ in range(50)]])
             out.append({"mode": "pk", "pkts": pk, "cuts": cuts, "big": True})
+    # message transports with large packets: WritePacket hands the whole body to the transport in one Write = one WebSocket message
+    for side in ("server", "client", "transport"):
+        for n in ((1 << 20) + 1, (2 << 20) + 7):
+            pk = [{"ty": 0x22, "compress": False, "body": "", "fill": [0x41, n]}, {"ty": 0x20, "compress": False, "body": "0102"}]
+            out.append({"mode": "ws", "side": side, "pkts": pk, "cuts": rng.choice([[1, 4, n, 1, 4, 2], []]), "big": True})
     # the limit itself: bodies of exactly MaxPacketBodySize (and one less), compressed and not, built inside the harness
     for n in (16777216 - 1, 16777216):
         for comp in (False, True):
@@ -278,6 +288,9 @@ def run(ctx, only_cases=None):
                 kind = {"pk": "roundtrip", "ws": "roundtrip-websocket-%s" % c.get("side"), "cw": "concurrent-writers", "dx": "full-duplex"}.get(c["mode"], "chunk-independence")
                 ctx.violation("%s" % kind, "real StreamProcessor: %s" % so["prop_msg"],
                               {"case": small, "observed": so["obs"], "wire": so.get("wire")})
+    # a case on which the real code panicked has no observations to compare: it is reported above (prop_ok false) and left out here
+    keep = [i for i, o in enumerate(outs) if not o.get("panicked")]
+    cases, outs = [cases[i] for i in keep], [outs[i] for i in keep]
     # the incoming direction of every duplex case is a model case of its own (packets B1.. read under the case's chunking)
     for c, o in list(zip(cases, outs)):
         if c["mode"] == "dx" and o.get("in"):
